@@ -73,7 +73,7 @@ def generic_backend_class():
 
 
 def cases(tier, seed):
-    n = 240 if tier == "quick" else 8000
+    n = 240 if tier == "quick" else 5000
     out = [{"sub": "pair", "i": i} for i in range(n)]
     out += [{"sub": "sympy", "i": i} for i in range(8 if tier == "quick" else 200)]
     out += [{"sub": "oneterm", "i": i} for i in range(16 if tier == "quick" else 200)]
